@@ -3,6 +3,31 @@
 import json
 
 CLAIMED = {
+ "C09": dict(
+   text="Machine-checked proof (Coq, world Q, axiom-free) about the executable model of compute_bias (model/Bias.v on top of model/Binning.v): every output row is the definition applied to the rows of its group "
+        "(weighted mean of V, count, weight sum, Bessel-corrected stderr^2, t^2 and degrees of freedom), counts and weights sum to the totals, weight-averaged group means equal the overall mean, "
+        "null values keep their own (first) group, the whole table is invariant under permutation of the rows, and head(n_bins) never drops a group. Tie: correspondence with the real compute_bias "
+        "over feature types x 10 bin methods x functionals x weights x 1-3 models, compared inside Coq.",
+   note="Partial: the polars group_by/window engine is not modelled (its meaning is tied by correspondence only); sqrt and the Student-t CDF are not rational: stderr is compared squared and p_value against "
+        "2*scipy.special.stdtr(df, -sqrt(t^2)) computed from the model's pieces; 'identical on repeated calls' is observed (two calls compared). Known finding: features whose only non-null values are infinite (see C13).",
+   technique="Coq proof (list induction, Permutation) + vm_compute correspondence + judge by exact per-group definition", ref="4 C09"),
+ "C11": dict(
+   text="Machine-checked proof (Coq) about the executable model of IsotonicRegression.fit/predict (model/IsoFit.v: stable sort by (X, y in tie order), isotonic_regression, threshold index selection incl. special cases, "
+        "np.interp with constant fill): prediction at each training X equals the fitted value of that row, equal X gives equal prediction (all four functionals), optimality among ALL REAL monotone functions of X "
+        "(mean, expectile, quantile, median; world R), predictions are total/finite, monotone in the fitted direction for every pair of queries, between neighbouring fitted values, and constant beyond the training range. "
+        "Tie: skeleton+leaves of the class and correspondence (thresholds vertex-exact on exact inputs, predictions 1e-9, 4 X dtypes). A genuine defect (NaN predictions for non-float64 X with ties) was found and repaired (fix 7007a15).",
+   note="Partial: row-order independence is proved only when rows that tie in the sort order are identical (fit_perm_partial); otherwise it is judged by refitting shuffled rows. scikit-learn (mean, out_of_bounds='clip') "
+        "is compared on every mean case as a third opinion, not modelled. scipy interp1d is modelled by np.interp semantics.",
+   technique="Coq proof (sort, thresholds, interpolation on top of the certificate) + skeleton/leaf translation + vm_compute correspondence", ref="4 C11"),
+ "C13": dict(
+   text="Machine-checked proof (Coq, world Q, axiom-free) about the executable model of bin_feature: every row gets exactly one bin, null/NaN rows the null bin and only they; for ANY non-decreasing edge vector the reported "
+        "edges contain the value (left-open, first bin closed), bin numbers are monotone in the value, equal values share a bin; quantile/uniform give at most n_bins groups incl. the null bin; strings: the most frequent "
+        "categories are kept with ties in natural order, k >= 2 pooled categories, label 'other k' is fresh against every category (and every declared enum category), label is the count for k < 1000. "
+        "Tie: correspondence with the real bin_feature over float/int/bool/str/Categorical/Enum features with null/NaN/inf, 10 bin methods. Three genuine defects were found and repaired (fixes 3ff5ebb, f02e33e, 9ce4ae5).",
+   note="Partial: numpy's eight histogram rules are not rational; their interior edges enter the model as data (sortedness is a hypothesis of bin_contains for them). np.quantile(inverted_cdf) is modelled by its definition. "
+        "Known finding: columns whose only non-null values are +-inf raise TypeError / give NaN edges.",
+   technique="Coq proof (list induction) + vm_compute correspondence + judge by brute force", ref="4 C13"),
+
  "C17": dict(
    text="Partial by nature (a container does not exist in a mathematical model). Proved in Coq about the translated __call__ (gen_call): the aggregate score is the weighted average of the per-observation scores, "
         "raises iff score_per_obs raises, is unchanged by rescaling all weights, unit weights = plain mean, and vector calls are the per-observation function applied element-wise. "
